@@ -441,14 +441,15 @@ def gen_scenario(rng, chars):
             'lib_sources': lib_sources,
             'lib_kind': rng.choice(['static_library', 'shared_library',
                                     'library']),
-            'backend': 'make'}
+            'backend': rng.choice(['make', 'ninja'])}
 
 
 def run_case(seed, root, params=None):
     params = params or {}
     rng = random.Random(seed)
     chars = params.get('chars', [' '])
-    cfg = {'clock_mode': 'strict', 'bufsize': 4096, 'seed': seed}
+    cfg = {'clock_mode': 'strict', 'bufsize': 4096, 'seed': seed,
+           'jobs': rng.choice([1, 2, 4])}
     scn = gen_scenario(rng, chars)
     hs = list(scn['headers'])
     ss = list(scn['sources'])
